@@ -28,6 +28,15 @@ CLAIMED.update({
     "C09": ("decision refinement in the direction reclaim => allowed, staleness comparison strictness, queue-shift flow, const table (MIR)", "revision-timeline arithmetic for concrete gaps is not decided"),
 })
 
+CLAIMED.update({
+    "C14": ("cycle-check dominance of every wait (edge-cut guard analysis), interprocedural divergence of the Panic arm, Claimed/Running/Cycle dispatch table, guard types (MIR)", "behaviour of later histories is not decided"),
+    "C16": ("lock-class acquire-while-holding graph over the crate call graph (acyclicity, no park under a sync/shard lock), plus the claim/wake-up orderings of C17/C19 (MIR)", "termination and values under concrete schedules are not decided"),
+    "C17": ("claim-before-load dominance, who-constructs-ClaimGuard census with preconditions, insert-before-release order (MIR)", "execution counts under concrete schedules are not decided"),
+    "C18": ("transfer/release decision tables, sibling agreement of try_/peek_claim_transferred, single-critical-section order for transfer (MIR)", "termination/values under interleavings and forest acyclicity are not decided"),
+    "C19": ("wake-up ordering (add_edge < release sync guard < wait; remove edge < store result < notify), who-notifies census, release-on-all-exits (MIR)", "reachable-state invariants of the protocol are not decided (model checking)"),
+    "C22": ("guard-type analysis (destructor must-release, forget-after-release) + unwind-window effect analysis: user-code effect closed over the call graph, every unwind edge inside a fragile window must reach a repair guard (MIR with unwind edges)", "post-panic results of concrete histories are not decided; user Drop impls are not modelled as user code; known findings F2/F2b are listed, not suppressed wholesale"),
+})
+
 PENDING = "check not built yet in this round (see DESIGN.md section 5 for the planned static obligations)"
 NOT_APPLICABLE = {}
 
